@@ -252,6 +252,8 @@ class OalFaultEngine(Engine):
         return {
             'level': 'fault_enumeration',
             'evaluations': 'steps',     # an evaluation is one fault site, not one block
+            # the thorough tier enumerates every single-fault site of the committed corpus (first pass)
+            'exhaustive_in_thorough': True,
             'rule': ('one run = one OAL body of the committed corpus (%d bodies: repository test samples and hand-written '
                      'bodies covering every statement production); fault sites: truncation after every character, every '
                      'whitespace character flipped among space/tab/newline/CR, per token delete / duplicate / swap / '
